@@ -70,6 +70,7 @@ func genConfig(t *rapid.T, p profile) harness.Config {
 	sets = append(sets, subset(t, "setup", p.setups, 60)...)
 	c.Setups = perm(t, "setuporder", sets)
 	c.SetupsFirst = len(sets) > 0 && chance(t, "setupsfirst", 30)
+	c.LegacyRedirect = chance(t, "legacyredirect", 12)
 	c.Mount = pick(t, "mount", "/auth", "/auth", "", "/a/b")
 	c.JSON = chance(t, "json", 40)
 	c.Username = chance(t, "username", 20)
@@ -101,10 +102,17 @@ func genConfig(t *rapid.T, p profile) harness.Config {
 	n := rapid.IntRange(p.accts[0], p.accts[1]).Draw(t, "naccts")
 	for i := 0; i < n; i++ {
 		a := harness.AccountSpec{Password: goodPWs[i%4]}
-		if c.Username {
+		short := chance(t, "shortpid", 15) // one-character names are valid identifiers too
+		switch {
+		case c.Username && short:
+			a.PID = fmt.Sprintf("%c", 'a'+i)
+			a.Email = fmt.Sprintf("%c@mail.io", 'a'+i)
+		case c.Username:
 			a.PID = fmt.Sprintf("user%c", 'a'+i)
 			a.Email = fmt.Sprintf("user%c@mail.io", 'a'+i)
-		} else {
+		case short:
+			a.PID = fmt.Sprintf("%c@x.io", 'a'+i)
+		default:
 			a.PID = fmt.Sprintf("acct%c@x.io", 'a'+i)
 		}
 		if c.Has("otp") {
@@ -862,7 +870,24 @@ func genCase(t *rapid.T, p profile) Case {
 	e := genEnv{cfg: cfg, nAcct: len(cfg.Accounts), nBrows: cfg.Browsers}
 	c := Case{Cfg: cfg, Ops: genOps(t, p, e)}
 	decorateFaults(t, p, c.Ops)
+	decorateJSON(t, cfg, c.Ops)
 	return c
+}
+
+// decorateJSON: in JSON mode a few requests carry a body that does not decode into
+// string members (a boolean "rm", a numeric code, a cut-off body ...), as real API clients send.
+func decorateJSON(t *rapid.T, cfg harness.Config, ops []Op) {
+	if !cfg.JSON {
+		return
+	}
+	for i := range ops {
+		switch ops[i].K {
+		case "login", "otplogin", "register", "recstart", "recend", "totpvalidate", "smsvalidate", "totpconfirm", "smsconfirm", "totpremove", "smsremove", "evend":
+			if chance(t, "jsonmangle", 5) {
+				ops[i].JM = pick(t, "jsonhow", "bool", "bool", "num", "null", "trunc", "trunc", "array", "nested")
+			}
+		}
+	}
 }
 
 // decorateFaults gives a share (profile.faultPct) of the requests one failing backend call.
